@@ -335,6 +335,25 @@ def discriminating_path(
     return found_discriminating_path, disc_path, explored_nodes
 
 
+def _potentially_directed_edge(
+    graph: PAG, node: Node, next_node: Node, force_circle: bool = False
+) -> bool:
+    """Check that ``node *-* next_node`` can be traversed from node to next_node on a pd path.
+
+    The edge must not have an arrowhead at ``node`` and must not have a tail at ``next_node``.
+    That is, it is one of ``node o-o next_node``, ``node -o next_node``, ``node o-> next_node``
+    or ``node -> next_node``. If ``force_circle`` is True, only ``node o-o next_node`` qualifies.
+    """
+    circle_at_next = graph.has_edge(node, next_node, graph.circle_edge_name)
+    circle_at_node = graph.has_edge(next_node, node, graph.circle_edge_name)
+    if force_circle:
+        return circle_at_next and circle_at_node
+    arrow_at_node = graph.has_edge(next_node, node, graph.directed_edge_name)
+    return (circle_at_next and not arrow_at_node) or graph.has_edge(
+        node, next_node, graph.directed_edge_name
+    )
+
+
 def uncovered_pd_path(
     graph: PAG,
     u: Node,
@@ -480,15 +499,9 @@ def uncovered_pd_path(
             if prev_node is not None and next_node in graph.neighbors(prev_node):
                 continue
 
-            # now check that the triple is potentially directed, else
-            # we skip this node
-            condition = graph.has_edge(this_node, next_node, graph.circle_edge_name)
-            if not force_circle:
-                # If we do not restrict to circle paths then directed edges are also OK
-                condition = condition or graph.has_edge(
-                    this_node, next_node, graph.directed_edge_name
-                )
-            if not condition:
+            # now check that the edge is potentially directed (or a circle edge
+            # if we restrict to circle paths), else we skip this node
+            if not _potentially_directed_edge(graph, this_node, next_node, force_circle):
                 continue
 
             # now this next node is potentially directed, does not
